@@ -13,7 +13,7 @@ def getBigInt (j : Json) : R Int :=
   | _ => j.getInt?
 
 /-- exact rational as `[num, den]` (strings or numbers) -/
-def getRat (j : Json) : R Rat := do
+private def getRat (j : Json) : R Rat := do
   let a ← getArr j
   let n ← getBigInt a[0]!
   let d ← getBigInt a[1]!
